@@ -28,6 +28,7 @@ RULE = (
     "non-trivial = the fault hit after >= 1 sbatch of that round or while the cluster lock was held, and >= 1 later "
     "submitter attempt followed; distinct by hash of the case"
 )
+RULE += " Later additions (DESIGN.md 9): " + 'squeue outages last 1-3 retry windows; a process whose status query failed must not forget batches that are pending or have a job process running.'
 ASSUMPTIONS = C.WORLD_ASSUMPTIONS + [
     "file_yields on: every open-for-write, commit (close), remove, rename and O_CREAT under the output directory is a "
     "scheduling, kill and fault point; a written file reaches the disk atomically at close (rows and JSON documents "
